@@ -19,12 +19,23 @@
 (* judged by the harness with reference code: the destination of the        *)
 (* specification is updated with exactly that.                             *)
 (*                                                                         *)
-(* Two silent "defect" steps let a run that breaks a rule continue, so that *)
-(* the broken rule is reported by name instead of as an unexplained trace:  *)
-(* SkipGate (leaving verify without a proof) and AbortOnQuota (ending a     *)
-(* pass while a batch waits for its retry).  They only mark suspicion; a    *)
-(* flag is raised when an event proves it (a submission in an ungated pass; *)
-(* the next GetRoot / Return while suspected).                              *)
+(* Three silent "defect" steps let a run that breaks a rule continue, so    *)
+(* that the broken rule is reported by name instead of as an unexplained    *)
+(* trace: SkipGate (leaving verify without a proof), AbortOnQuota (ending a *)
+(* pass while a batch waits for its retry) and AbandonRanges (taking a pass *)
+(* for finished while fetch workers still hold ranges or remainders of      *)
+(* ranges: an empty page or a short read taken for the end of the range).   *)
+(* They only mark suspicion; a flag is raised when an event proves it (a    *)
+(* submission in an ungated pass; the next GetRoot / Return while           *)
+(* suspected; Return nil with a hole, or the GetRoot of the next pass with  *)
+(* a position that has a hole below it).                                    *)
+(*                                                                         *)
+(* Empty pages (Fetch with code OK and n = 0): the property leaves open     *)
+(* what the migrator does with an empty batch as long as no gap results.    *)
+(* The specification's clause is EmptyPageHandedOn (the empty request is    *)
+(* sent and refused: Add with n = 0, no index, InvalidArgument); the silent *)
+(* step SkipEmpty also accepts a migrator that drops the empty batch and    *)
+(* simply asks again.  Neither lets the range end.                          *)
 (***************************************************************************)
 EXTENDS Migrillian, Json, IOUtils
 
@@ -69,7 +80,8 @@ TGetRoot ==
        THEN /\ destSize = E.size
             /\ root' = destSize /\ sth' = -1 /\ proved' = FALSE /\ pc' = "prepare" /\ UNCHANGED why
        ELSE /\ pc' = "unwind" /\ why' = "err" /\ root' = 0 /\ sth' = -1 /\ proved' = FALSE
-  /\ flags' = Convict(flags)
+  \* a new pass begins with Run's position `pos`: Run will never look below it again
+  /\ flags' = Convict(flags) \cup (IF PosCovered THEN {} ELSE {"gap"})
   /\ UNCHANGED <<cfg, dest, pipe, envv, restarts, verified, result, pos, gen, faults, pass, calls, hist>>
 
 TSTH ==
@@ -101,7 +113,7 @@ TFetch ==
   /\ \E r \in out :
        /\ r.s = E.start /\ r.e = E.end
        /\ \/ /\ pc = "run" /\ Fetch(r)
-             /\ IF E.code = "OK" THEN [s |-> r.s, n |-> E.n] \in bag' /\ bag' # bag
+             /\ IF E.code = "OK" THEN \E b \in bag' \ bag : b.s = r.s /\ b.n = E.n       \* n = 0: an empty page
                                  ELSE bag' = bag /\ out' = out
           \/ pc = "unwind" /\ StragglerFetch(r)
 
@@ -112,9 +124,11 @@ LeavesOf(ls) == LET I == {ls[j].i : j \in DOMAIN ls}
 TAdd ==
   /\ Ev("Add") /\ Step
   /\ \E h \in hold :
-       /\ h.s = E.start /\ h.n = E.n /\ h.st = "try"
+       \* a request without leaves carries no index: any empty batch held by a submitter explains it
+       /\ (E.n = 0 \/ h.s = E.start) /\ h.n = E.n /\ h.st = "try"
        /\ \/ /\ pc = "run"
-             /\ SubmitL(h, LeavesOf(E.leaves), CASE E.code = "OK" -> "ok" [] E.code = "ResourceExhausted" -> "quota" [] OTHER -> "fatal")
+             /\ SubmitL(h, LeavesOf(E.leaves), CASE E.code = "OK" -> "ok" [] E.code = "ResourceExhausted" -> "quota"
+                                                  [] E.n = 0 -> "refused" [] OTHER -> "fatal")
           \/ /\ pc = "unwind" /\ E.code = "OK" /\ StragglerSubmitL(h, LeavesOf(E.leaves))
           \/ /\ pc = "unwind" /\ E.code # "OK" /\ hold' = hold \ {h}
              \* a genuine failure seen while unwinding: whatever was suspected, this may have ended the pass
@@ -161,6 +175,23 @@ AbortOnQuota ==
   /\ pc' = "unwind" /\ why' = "err" /\ flags' = flags \cup {"quotaSuspect"}
   /\ UNCHANGED <<cfg, dest, pipe, envv, restarts, faults, pass, calls, hist, result, pos, root, sth, proved, gen, verified, l>>
 
+\* defect: the pass is taken for finished although fetch workers still hold ranges (or the remainders of ranges after a
+\* short read or an empty page): the rest is given up.  PassDone then advances the position past the hole; the hole is
+\* reported when an event proves that the pass was indeed reported as successful (Complete at Return nil, NoGap at the
+\* next GetRoot).
+AbandonRanges ==
+  /\ pc = "run" /\ why = "" /\ gen = sth /\ out # {} /\ hold = {} /\ \A b \in bag : b.n = 0
+  /\ out' = {} /\ bag' = {}
+  /\ UNCHANGED <<cfg, dest, hold, envv, restarts, faults, pass, calls, hist, ctl, verified, flags, l>>
+
+\* permitted: an empty batch is dropped instead of being submitted (the range is still held and asked again)
+SkipEmpty ==
+  /\ pc = "run" /\ \E b \in bag : b.n = 0 /\ bag' = bag \ {b}
+  /\ UNCHANGED <<cfg, dest, out, hold, envv, restarts, faults, pass, calls, hist, ctl, verified, flags, l>>
+
+\* no pass was reported successful with a hole below the position it handed to the next pass
+NoGap == "gap" \notin flags
+
 Silent == /\ UNCHANGED l
           /\ \/ AssignRange \/ PassDone \/ AwaitDone \/ DoFail
              \/ (Verify /\ root = 0)
@@ -170,7 +201,7 @@ Silent == /\ UNCHANGED l
              \/ (\E h \in hold : Wake(h))
 
 TraceNext == TReset \/ TGetRoot \/ TSTH \/ TCons \/ TStray \/ TFetch \/ TAdd \/ TIntegrate \/ TGrow \/ TMaster \/ TCancel
-             \/ TRestart \/ TReturn \/ Silent \/ SkipGate \/ AbortOnQuota
+             \/ TRestart \/ TReturn \/ Silent \/ SkipGate \/ AbortOnQuota \/ AbandonRanges \/ SkipEmpty
 
 TraceView == <<cfg, srcSize, dest, destSize, pc, why, result, pos, root, sth, proved, gen, out, bag, hold,
                master, alive, verified, flags, l>>
